@@ -706,6 +706,8 @@ func execCase(lines []string) []string {
 		kinds[strings.Fields(l)[0]] = true
 	}
 	switch {
+	case kinds["slot"]:
+		return execSlot(in)
 	case kinds["dmx"]:
 		return execDmx(in)
 	case kinds["node"]:
